@@ -12,9 +12,10 @@ DEMO=$(ls demo_*.py | head -1)
 cp $DEMO $D/
 timeout 900 /venv/bin/python $DEMO > /tmp/cs_${NAME}_with.txt 2>&1; WITH=$?
 TESTS=$(/venv/bin/python -m pytest -q -p no:cacheprovider tests/test_pdu.py tests/test_dimsemessages.py 2>&1 | tail -1)
-git stash -q -- pynetdicom2
+# (no git stash: the stash is shared by all worktrees of the repository)
+git apply -R $D/patch.diff
 timeout 900 /venv/bin/python $DEMO > /tmp/cs_${NAME}_without.txt 2>&1; WITHOUT=$?
-git stash pop -q
+git apply $D/patch.diff
 T=$(mktemp -d /tmp/cs_XXXX)
 cp -r /repo $T/repo && rm -rf $T/repo/.git
 ( cd $T/repo && patch -p1 -s < $D/patch.diff ) || { echo "patch does not apply"; rm -rf $T; exit 2; }
